@@ -5,6 +5,7 @@ import Proofs.C01Tables
 import Proofs.C01StmtSim
 import Proofs.C01Witness
 import Proofs.C01FramesCor
+import Proofs.C01Norm
 /-!
 # C01 — compiled execution preserves the meaning of the parsed program
 
@@ -253,5 +254,71 @@ example : ∀ fn ∈ recFT, fn.body.WF := by simp [recFT, Stmt.WF]
 -- non-vacuity: a concrete evaluation satisfying the hypothesis of `compile_expr_correct`
 example : (eval (semC false) (.assign (.var .global 0) (.arith .add (.num ⟨true, 2⟩) (.num ⟨true, 3⟩))) {}).map (·.1) = some (CV.num 5) := by
   simp [eval, semC, Conc.arith, Conc.toNum, Conc.big]
+
+/-! ## normalised values: the final `Boolean` of `&&` / `||` and the shared number space of opcodes and operands -/
+
+/-- `&&`, `||`, the six comparisons and `!` used as VALUES: direct evaluation gives `ofBool _` (0 or 1), and the compiled code,
+wherever it sits, leaves exactly that normalised value on the stack — never the raw value of an operand -/
+theorem logical_value_normalised (L : Laws S) (e : Expr)
+    (he : (∃ l r, e = .and l r) ∨ (∃ l r, e = .or l r) ∨ (∃ op l r, e = .cmp op l r) ∨ (∃ x, e = .unary .not x))
+    (C : Code) (pc : Nat) (s : List S.V) (w : S.W) (v : S.V) (w' : S.W)
+    (hc : CodeAt C pc (cExpr e)) (h : eval S e w = some (v, w')) :
+    (∃ b, v = S.ofBool b) ∧ Reach S C ⟨pc, s, w⟩ ⟨pc + csize (cExpr e), v :: s, w'⟩ := by
+  refine ⟨?_, compile_expr_correct L e C pc s w v w' hc h⟩
+  rcases he with ⟨l, r, rfl⟩ | ⟨l, r, rfl⟩ | ⟨op, l, r, rfl⟩ | ⟨x, rfl⟩
+  · exact and_value_normalised l r w v w' h
+  · exact or_value_normalised l r w v w' h
+  · exact cmp_value_normalised op l r w v w' h
+  · exact not_value_normalised x w v w' h
+
+/-- the final `Boolean` of `l && r` is what normalises: the emitted code is `andNoBoolean l r ++ [Boolean]`, and the part before
+it, run on a true `l`, ends with the RAW value of `r` on the stack -/
+theorem boolean_needed_after_and (L : Laws S) (l r : Expr) (s : List S.V) (w w1 w' : S.W) (lv rv : S.V)
+    (hl : eval S l w = some (lv, w1)) (hb : S.toBool lv = true) (hr : eval S r w1 = some (rv, w')) :
+    cExpr (.and l r) = andNoBoolean l r ++ [.boolean] ∧ Frag S (andNoBoolean l r) s w (rv :: s) w' :=
+  ⟨cExpr_and_eq l r, and_without_boolean_raw L l r s w w1 w' lv rv hl hb hr⟩
+
+theorem boolean_needed_after_or (L : Laws S) (l r : Expr) (s : List S.V) (w w1 w' : S.W) (lv rv : S.V)
+    (hl : eval S l w = some (lv, w1)) (hb : S.toBool lv = false) (hr : eval S r w1 = some (rv, w')) :
+    cExpr (.or l r) = orNoBoolean l r ++ [.boolean] ∧ Frag S (orNoBoolean l r) s w (rv :: s) w' :=
+  ⟨cExpr_or_eq l r, or_without_boolean_raw L l r s w w1 w' lv rv hl hb hr⟩
+
+/-- opcodes and inline operands share one number space (the real opcode list, regenerated from opcodes.go): for exactly the
+field numbers 48–53, 55–57, 60 the last WORD of the code of `$n` is the number of a boolean-producing opcode although its last
+INSTRUCTION is `FieldInt n` -/
+theorem operand_words_look_like_opcodes :
+    [48, 49, 50, 51, 52, 53, 55, 56, 57, 60].all (fun n =>
+      cExpr (fieldN n) == [.fieldInt n] &&
+      lastWordLooksBoolean realOps (encode realOps (cExpr (fieldN n))) &&
+      !endsInBooleanInstr (cExpr (fieldN n))) = true ∧
+    ((List.range 100).filter fun n => lastWordLooksBoolean realOps (encode realOps (cExpr (fieldN n)))) =
+      [48, 49, 50, 51, 52, 53, 55, 56, 57, 60] :=
+  ⟨last_word_ambiguous, last_word_ok_elsewhere⟩
+
+/-- a peephole that drops the final `Boolean` of `&&` when the last code WORD of both operands is a boolean-producing opcode
+number changes the meaning: `print ($48 && $49)` prints 149 instead of 1 (and leaves `$5 && $6` alone) — the seeded change C01-p1 -/
+theorem boolean_elision_by_last_word_fails :
+    exec semFld 3 (.print [.and (fieldN 48) (fieldN 49)]) [] = some (.normal [1]) ∧
+    run semFld (cExpr (.and (fieldN 48) (fieldN 49)) ++ [.print 1]) 20 ⟨0, [], []⟩ = .normal [1] ∧
+    run semFld (cAndPeephole (fun c => lastWordLooksBoolean realOps (encode realOps c)) (fieldN 48) (fieldN 49) ++ [.print 1]) 20 ⟨0, [], []⟩
+      = .normal [149] ∧
+    cAndPeephole (fun c => lastWordLooksBoolean realOps (encode realOps c)) (fieldN 5) (fieldN 6) = cExpr (.and (fieldN 5) (fieldN 6)) :=
+  word_peephole_unsound
+
+/-- even looking at the last INSTRUCTION is not enough: `c ? t : f` ends with the code of `f` only -/
+theorem boolean_elision_by_last_instr_fails :
+    endsInBooleanInstr (cExpr ternCmp) = true ∧
+    exec semFld 3 (.print [.and (.cmp .lt (.num ⟨true, 5⟩) (.num ⟨true, 7⟩)) ternCmp]) [] = some (.normal [1]) ∧
+    run semFld (cAndPeephole endsInBooleanInstr (.cmp .lt (.num ⟨true, 5⟩) (.num ⟨true, 7⟩)) ternCmp ++ [.print 1]) 30 ⟨0, [], []⟩
+      = .normal [7] :=
+  last_instr_peephole_unsound
+
+-- non-vacuity: the hypotheses of `boolean_needed_after_and` / `logical_value_normalised` are satisfiable (semFld: `$n` = 100 + n)
+example : eval semFld (fieldN 48) [] = some ((148 : Nat), ([] : List Nat)) ∧ semFld.toBool (148 : Nat) = true ∧
+    eval semFld (fieldN 49) [] = some ((149 : Nat), ([] : List Nat)) := by
+  refine ⟨?_, ?_, ?_⟩ <;> rfl
+example : eval semFld (.and (fieldN 48) (fieldN 49)) [] = some ((1 : Nat), ([] : List Nat)) := by rfl
+example : eval (semC false) (.or (.num ⟨true, 0⟩) (.num ⟨true, 7⟩)) {} = some (CV.num 1, {}) := by
+  simp [eval, semC, Conc.toBool]
 
 end GoawkModel.C01.Props
